@@ -21,7 +21,7 @@ RULE = ('source port trees to depth 3 over names {a, ab, abc, b, x} (so names ar
         'selects a strict subset')
 ASSUMPTIONS = ['an empty include list is treated by the code as "no filter" and is outside the quantifier', 'reference model written from the property statement']
 REQUIRED = ['exposes', 'include_cases', 'exclude_cases', 'prefix_sibling_cases', 'nested_rule_cases', 'attr_checks', 'mutation_probes', 'both_rejected',
-            'namespace_option_cases', 'preexisting_kept', 'options_reused']
+            'namespace_option_cases', 'preexisting_kept', 'options_reused', 're_exposures']
 BOUNDS = {'quick': '40 trees x all single rules and pairs', 'thorough': '600 trees, rule sets up to 3'}
 NAMES = ['a', 'ab', 'abc', 'b', 'x']
 
@@ -329,6 +329,23 @@ def run_case(case):
             viol.append(V('namespace-attr', 'namespace-attr:%s' % k, 'target namespace %s=%r, expected %r (source %r, options %r)' % (
                 k, got_top[k], e, _ns_attrs(src_root)[k], case['options'])))
             break
+    # the same class exposed a second time into the same namespace, with narrower rules: what the first exposure (and the
+    # destination itself) put there stays in place
+    # (with a top-level rule only: a nested rule re-creates the namespace above it, which replaces a namespace of the same name as
+    # a whole -- the documented "a port of the same name is overwritten")
+    if exp_names and mode == 'include' and any('.' not in r for r in rules):
+        narrower = [sorted(r for r in rules if '.' not in r)[0]]
+        before_again = describe(target_ns)
+        try:
+            expose(src_cls, include=narrower, namespace=case['target'])
+            obs['re_exposures'] = 1
+            after_again = describe(target_ns)
+            lost = _names(before_again) - _names(after_again)
+            if lost:
+                viol.append(V('reexpose-removed', 'reexpose-removed', 'exposing the same class again with include=%s removed %s from the target namespace' % (
+                    narrower, sorted(lost))))
+        except Exception as exc:  # noqa: BLE001
+            viol.append(V('reexpose-raised', 'reexpose-raised:%s' % type(exc).__name__, 'exposing the same class a second time raised %r' % (exc,)))
     # the same keyword arguments used for a second expose (into another namespace) give the same result
     if opts:
         kwargs2 = dict(kwargs, namespace='second_use')
